@@ -634,6 +634,18 @@ def data_file_for(tree, cls, fn):
     raise ExtractionError("%s.%s: cannot determine the JSON file of its statement table" % (cls.name, fn.name))
 
 
+def guards_of(conds):
+    """branch conditions the model can evaluate on an environment: emptiness of an iterated mapping.  Anything else is
+    `any` (the variant is then taken to be reachable in every environment)."""
+    import re
+    out = []
+    for _, src, val in conds:
+        m = re.fullmatch(r"len\((\w+)\.values\(\)\) == 0", src)
+        if m:
+            out.append(("mapEmpty" if val else "mapNonEmpty", m.group(1)))
+    return out
+
+
 def split_params(pieces):
     """split `$name` out of literal text into param atoms"""
     import re
@@ -712,16 +724,16 @@ def extract():
                             for i, t in enumerate(texts):
                                 if not isinstance(t, str):
                                     raise ExtractionError("%s: entry %d of %s is not a string" % (fn.name, i, fname))
-                                variants.append((line, "%s[%d]" % (fname, i), split_params([("lit", t)]), supplied))
+                                variants.append((line, "%s[%d]" % (fname, i), split_params([("lit", t)]), supplied, []))
                             continue
                         tpl = split_params(v.p)
                         cs = " and ".join(("" if val else "not ") + "(" + c + ")" for _, c, val in conds)
                         if not any(repr(tpl) == repr(x[2]) and supplied == x[3] for x in variants):
-                            variants.append((line, cs, tpl, supplied))
-                    for vi, (line, cs, tpl, supplied) in enumerate(variants):
+                            variants.append((line, cs, tpl, supplied, guards_of(conds)))
+                    for vi, (line, cs, tpl, supplied, guards) in enumerate(variants):
                         ops.append({"key": "%s.%s#%d" % (cls.name, fn.name, sid), "variant": vi,
                                     "cond": cs if len(variants) > 1 else "", "line": line, "module": rel,
-                                    "tpl": tpl, "supplied": supplied})
+                                    "tpl": tpl, "supplied": supplied, "guards": guards if len(variants) > 1 else []})
                     found += len({l for l, _, _, _ in by_site[sid]})
         report[rel] = {"run_sites": found, "textual_run_calls": n_run_text, "span": hashlib.sha256(src.encode()).hexdigest()[:12]}
         if found != n_run_text:
@@ -789,10 +801,11 @@ def generate():
         nm = def_name(op)
         names.append(nm)
         body += "/-- %s:%d%s -/\n" % (op["module"], op["line"], ("  when " + op["cond"]) if op["cond"] else "")
-        body += "def %s : Op :=\n  { key := t!%s, variant := %d, line := %d,\n    tpl := %s,\n    supplied := %s }\n\n" % (
+        body += "def %s : Op :=\n  { key := t!%s, variant := %d, line := %d,\n    tpl := %s,\n    supplied := %s,\n    guards := %s }\n\n" % (
             nm, lean_str(op["key"]), op["variant"], op["line"],
             "[" + ",\n            ".join(lean_piece(p) for p in op["tpl"]) + "]",
-            lean_list(["t!" + lean_str(s) for s in op["supplied"]]))
+            lean_list(["t!" + lean_str(s) for s in op["supplied"]]),
+            lean_list([".%s t!%s" % (g, lean_str(m)) for g, m in op["guards"]]))
     body += "def ops : List Op := %s\n" % ("[" + ",\n  ".join(names) + "]")
     changed = emit("Cypher", body, header="import FimVerif.Model.Cypher\n")
     return {"ops": len(ops), "modules": report, "changed": changed,
